@@ -10,7 +10,8 @@ COQ = os.path.join(ROOT, "coq")
 NPROC = os.cpu_count() or 4
 
 CXXFLAGS = ["-std=c++17", "-O1", "-g", "-UNDEBUG", "-fsanitize=address,undefined",
-            "-fno-sanitize-recover=all", "-ffp-contract=off", "-fno-omit-frame-pointer"]
+            "-fno-sanitize-recover=all", "-ffp-contract=off", "-fno-omit-frame-pointer",
+            "-ftrivial-auto-var-init=pattern"]   # uninitialised automatic variables get a recognisable garbage pattern
 
 os.makedirs(BUILD, exist_ok=True)
 
